@@ -183,11 +183,14 @@ def check(F, rep):
                     okp = True
         rep.ob("unregister", okp, site(c, ret[0][0]), "retain keeps connections whose id differs from the unregistering one", skey(F, c, "retain-pred"))
     # ---- lock hygiene: notifications after the closure, outside of it
+    from ..inline import inlined
+    u_src = u
+    u = inlined(F, u)       # the notification loop may live in a private helper
     gets = calls_on_field(u, "clients", "dashmap::DashMap::get")
     rep.floor("guard-across", "clients.get in the notification loop", len(gets), 1)
     for b, t in gets:
         rep.ob("guard-across", rim and u.dominates(rim[0][0], b), site(u, b), "peer lookup happens after remove_if_mut returned (its shard guard is released)", skey(F, u, "notify-after-remove"))
-    inner_gets = [1 for g in F.tree(u) if g is not u for _ in calls_on_field(g, "clients", regex=r"^dashmap::DashMap::")]
+    inner_gets = [1 for g in F.tree(u_src) if g is not u_src for _ in calls_on_field(g, "clients", regex=r"^dashmap::DashMap::")]
     rep.ob("guard-across", not inner_gets, site(u), "no access to the registry map from inside the remove_if_mut closure", skey(F, u, "no-nested-map-access"))
     pg = find_calls(u, S + "client::Client::try_send_peer_gone")
     rep.exact("unregister", "try_send_peer_gone calls", len(pg), 1)
